@@ -39,6 +39,8 @@ def run_variant(prop, repo):
     if code == 2:
         return "undecided", "; ".join(msgs)[:300]
     viol, kn = core.classify(ctx)
+    if code == 3 and not viol:
+        return "undecided", "; ".join(msgs)[:300]
     if viol:
         return "violation", "; ".join(f"[{r.rule}] {r.key}" for r in viol)[:400]
     return "clean", ""
